@@ -299,9 +299,9 @@ impl<T: AsRef<str>> TailingSpacesHighlighter for T {
 }
 
 fn space_start_index(input: &str) -> usize {
-    for (i, ch) in input.chars().rev().enumerate() {
+    for (index, ch) in input.char_indices().rev() {
         if !ch.is_whitespace() {
-            return input.len() - i;
+            return index + ch.len_utf8();
         }
     }
     0
